@@ -13,6 +13,7 @@ import re
 
 from ..facts import peel, strip_casts, show, walk, cond_atom
 from . import gates as G
+from .. import grammar as GR
 from .common import (callee_short, field_of, base_of, assigned_target, const_int, local_ref, deref)
 from .C04 import switch_arms
 
@@ -247,6 +248,7 @@ def run(ctx):
     _by_name_keys(ctx)
     _base_specifiers(ctx)
     _accessors_do_not_shadow_methods(ctx)
+    _semantic_values_always_set(ctx)
 
 
 def _contains(tree, node):
@@ -647,3 +649,129 @@ def _accessors_do_not_shadow_methods(ctx):
                 ctx.ob("R05.9", "%s|synthesis|only-if-name-not-%s" % (short, what), ok, f.loc(s),
                        "get_function() for the synthesised accessor is %sbehind `%s` not holding the name" % ("" if ok else "NOT ", suffix.split("::")[-1]))
     ctx.floor("R05.9", "name-collision obligations of the accessor synthesis", n, 4)
+
+
+def _strip_comments(t):
+    t = re.sub(r"/\*.*?\*/", " ", t, flags=re.S)
+    t = re.sub(r"//[^\n]*", " ", t)
+    t = re.sub(r'"(?:\\.|[^"\\])*"', '""', t)
+    return t
+
+
+def _assigns_on_all_paths(text):
+    """True iff every path through the C++ action text executes `$$ = ...` (if / else-if / else with braces; a chain
+    without a final else has a path that skips it)."""
+    i = 0
+    n = len(text)
+
+    def skip_ws(j):
+        while j < n and text[j].isspace():
+            j += 1
+        return j
+
+    def match(j, open_c, close_c):
+        depth = 0
+        while j < n:
+            if text[j] == open_c:
+                depth += 1
+            elif text[j] == close_c:
+                depth -= 1
+                if depth == 0:
+                    return j
+            j += 1
+        return n - 1
+
+    def block(j, end):
+        """does the statement sequence text[j:end] assign on all paths?"""
+        while j < end:
+            j = skip_ws(j)
+            if j >= end:
+                break
+            m = re.match(r"if\s*\(", text[j:end])
+            if m:
+                branches = []
+                has_else = False
+                while True:
+                    p = text.index("(", j)
+                    q = match(p, "(", ")")
+                    k = skip_ws(q + 1)
+                    if k < end and text[k] == "{":
+                        e = match(k, "{", "}")
+                        branches.append(block(k + 1, e))
+                        j = e + 1
+                    else:
+                        e = text.find(";", k, end)
+                        e = end - 1 if e < 0 else e
+                        branches.append(bool(re.search(r"\$\$\s*=[^=]", text[k:e + 1])))
+                        j = e + 1
+                    k = skip_ws(j)
+                    m2 = re.match(r"else\s+if\s*\(", text[k:end])
+                    if m2:
+                        j = k + text[k:end].index("if")
+                        continue
+                    m3 = re.match(r"else\b", text[k:end])
+                    if m3:
+                        k2 = skip_ws(k + 4)
+                        if k2 < end and text[k2] == "{":
+                            e = match(k2, "{", "}")
+                            branches.append(block(k2 + 1, e))
+                            j = e + 1
+                        else:
+                            e = text.find(";", k2, end)
+                            e = end - 1 if e < 0 else e
+                            branches.append(bool(re.search(r"\$\$\s*=[^=]", text[k2:e + 1])))
+                            j = e + 1
+                        has_else = True
+                    break
+                if has_else and all(branches):
+                    return True
+                continue
+            if text[j] == "{":
+                e = match(j, "{", "}")
+                if block(j + 1, e):
+                    return True
+                j = e + 1
+                continue
+            e = text.find(";", j, end)
+            e = end - 1 if e < 0 else e
+            stmt = text[j:e + 1]
+            # a nested brace (for/while/switch body) inside the statement: treat its content as conditional
+            if "{" in stmt:
+                b = j + stmt.index("{")
+                e = match(b, "{", "}")
+                j = e + 1
+                continue
+            if re.search(r"\$\$\s*=[^=]", stmt):
+                return True
+            j = e + 1
+        return False
+    t = text.strip()
+    if t.startswith("{") and t.endswith("}"):
+        t = t[1:-1]
+        text = t
+        n = len(text)
+    return block(0, n)
+
+
+def _semantic_values_always_set(ctx):
+    """R05.10: bison copies $1 into $$ before an action runs.  An action that assigns $$ only on some paths therefore
+    hands on $1 on the others - fine for `function_post: function_post KW_NOEXCEPT_LPAREN ...` (the flags collected so
+    far), garbage when $1 is a keyword token: `explicit(false) constexpr A(int);` took its storage-class bits from the
+    semantic value of the `explicit(` token.  (F-C05c; storage class feeds the static / explicit / deleted / virtual
+    roles recorded in the database.)"""
+    db = ctx.db
+    ctx.rule("R05.10", "a grammar action that assigns $$ at all assigns it on every path, unless the alternative's first symbol is the rule's own nonterminal (bison's default $$ = $1 then carries the accumulated value)")
+    g = GR.Grammar(db.meta["grammar"])
+    n = 0
+    for nt, alts in g.rules.items():
+        for a in alts:
+            act = _strip_comments(a.action or "")
+            if not re.search(r"\$\$\s*=[^=]", act):
+                continue
+            n += 1
+            syms = [x for x in a.syms if x != "@action"]
+            total = _assigns_on_all_paths(act)
+            ok = total or (syms and syms[0] == nt)
+            ctx.ob("R05.10", "%s|%s|value-set-on-every-path" % (nt, "_".join(syms)[:60]), ok, "src/cppparser/cppBison.yxx:%d" % a.line,
+                   "assigns $$ on every path" if total else ("leaves $$ = $1 on some path; $1 is %s" % (("the accumulated " + nt) if ok else ("`%s`, not a %s" % (syms[0] if syms else "?", nt)))))
+    ctx.floor("R05.10", "actions that assign a semantic value", n, 400)
